@@ -977,3 +977,109 @@ def rule_dom_py(ctx, m, F):
                         else:
                             ctx.held('R-DOM', '%s final threshold provenance' % F.name)
         ctx.check(cmpd, 'R-PRUNE', F.file, F.name, 'final threshold conversion', 'no final `d > max_dist -> infinity` conversion on the DP exit', ev[3].line)
+
+
+# ----------------------------------------------------------------------------------------------------- exits / result cell
+def _abs_len_diff():
+    return tmax(sub(V('L1'), V('L2')), sub(V('L2'), V('L1')))
+
+
+def rule_length_diff_exit(ctx, name, file, events, amap, line, rule='R-REC'):
+    """An early `return inf` guarded by |len1 - len2| > max_length_diff (strict) precedes the DP."""
+    ok = False
+    found_cmp = None
+    for ev in events:
+        if ev[0] != 'return' or ev[2] is None:
+            continue
+        v = ev[2]
+        first = v[1][0] if v[0] == 'tuple' and v[1] else v
+        if first != ('num', float('inf')):
+            continue
+        for c in _conj(ev[1]):
+            if c[0] == 'bin' and c[1] in ('>', '>=', '<', '<='):
+                try:
+                    l, r = kernels.term(c[2], amap), kernels.term(c[3], amap)
+                except sym.Unsupported:
+                    continue
+                op = c[1]
+                if op in ('<', '<='):
+                    l, r = r, l
+                    op = '>' if op == '<' else '>='
+                if sym.equivalent(l, _abs_len_diff(), BASE_DOM[:2], box=BOX)[0] == 'equal' and any(a.startswith('MAXLENDIFF') or a == 'max_length_diff' for a in sym.atoms(r)):
+                    found_cmp = op
+                    ok = op == '>'
+    what = 'no early `return inf` guarded by `abs(len1 - len2) > max_length_diff` before the DP' if found_cmp is None else \
+        'the length-difference exit uses `%s`: series whose length difference EQUALS max_length_diff must still be compared' % found_cmp
+    ctx.check(ok, rule, file, name, 'max_length_diff exit', what + ': the routine disagrees with the distance-only routine, which returns infinity exactly when the difference exceeds max_length_diff', line)
+
+
+def rule_result_cell(ctx, F):
+    """Rolling-buffer kernels: without end relaxation the result is cell (len1-1, len2-1); with psi_2e the last-row scan
+    covers columns [len2-1-psi_2e, len2-1] of the last row."""
+    if F.split_last is None or F.off_var is None:
+        ctx.undecided('R-PSI', '%s result cell' % F.name, 'recurrence facts unavailable')
+        return
+    amap = F.amap
+    dom = BASE_DOM[:2] + PSI_DOM + ([sub(V('W'), C(1))] if F.lang != 'c' else [V('W')])
+    off_last = V(F.off_var + '@last')
+    want_rest = sub(V('L2'), off_last)           # position of column len2-1
+    found = False
+    for ev in F.epilogue.events:
+        if ev[0] != 'return' or ev[2] is None:
+            continue
+        for x in walk_expr(ev[2]):
+            if x[0] == 'idx' and x[1] == ('var', F.arr) and x[2][0] != 'slice':
+                sp = F.split_last(norm_minmax(x[2]))
+                if sp is None or sp[0] != 'cur':
+                    continue
+                # skip scan reads (index depends on a loop variable of the epilogue)
+                if any(a.endswith('@epi') for a in sym.atoms(sp[1])):
+                    continue
+                found = True
+                r = sym.equivalent(sp[1], want_rest, dom, box=PSI_BOX)
+                if r[0] == 'differ':
+                    ctx.violation('R-PSI', F.file, F.name, 'result cell', 'the DP result must be read at cell (len1-1, len2-1) of the last row; found in-row position %s '
+                                  '(expected %s), e.g. at %s' % (sym.show(sp[1])[:120], sym.show(want_rest), _fmtw(r[1])), ev[3].line)
+                elif r[0] == 'equal':
+                    ctx.held('R-PSI', '%s result cell (len1-1, len2-1)' % F.name)
+                else:
+                    ctx.undecided('R-PSI', '%s result cell' % F.name, r[1])
+    if not found:
+        ctx.undecided('R-PSI', '%s result cell' % F.name, 'no direct read of the result cell found')
+    # last-row scan range
+    for ev in F.epilogue.events:
+        if ev[0] == 'loop' and ev[2].k == 'for':
+            lp = ev[2]
+            rds = [x for st in walk_stmts(lp.body) for e in _exprs(st) for x in reads_of(e, F.arr)]
+            if not rds:
+                continue
+            env2 = dict(ev[3])
+            env2.pop(lp.var, None)
+            idx0 = subst_expr(rds[0][2], env2)
+            lo_e, hi_e = subst_expr(lp.lo, ev[3]), subst_expr(lp.hi, ev[3])
+            sp_lo = F.split_last(norm_minmax(subst_expr(idx0, {lp.var: lo_e})))
+            sp_hi = F.split_last(norm_minmax(subst_expr(idx0, {lp.var: hi_e})))
+            if sp_lo is None or sp_hi is None:
+                ctx.undecided('R-PSI', '%s psi_2e scan range' % F.name, 'unrecognised scan index')
+                continue
+            r1 = sym.equivalent(sp_lo[1], sub(want_rest, V('PSI2E')), dom, box=PSI_BOX)
+            r2 = sym.equivalent(sp_hi[1], add(want_rest, C(1)), dom, box=PSI_BOX)
+            ok = r1[0] == 'equal' and r2[0] == 'equal' and sp_lo[0] == 'cur'
+            ctx.check(ok, 'R-PSI', F.file, F.name, 'psi_2e scan range',
+                      'the end relaxation of series 2 must take the minimum over columns [len2-1-psi_2e, len2-1] of the last row; found in-row positions [%s, %s)'
+                      % (sym.show(sp_lo[1])[:80], sym.show(sp_hi[1])[:80]), lp.line)
+    if F.lang != 'c':
+        for ev in F.epilogue.events:
+            if ev[0] != 'return' or ev[2] is None:
+                continue
+            for x in walk_expr(ev[2]):
+                if x[0] == 'idx' and x[1] == ('var', F.arr) and x[2][0] == 'slice':
+                    sp_lo = F.split_last(norm_minmax(x[2][1]))
+                    sp_hi = F.split_last(norm_minmax(x[2][2]))
+                    ok = False
+                    if sp_lo and sp_hi:
+                        r1 = sym.equivalent(sp_lo[1], sub(want_rest, V('PSI2E')), dom, box=PSI_BOX)
+                        r2 = sym.equivalent(sp_hi[1], add(want_rest, C(1)), dom, box=PSI_BOX)
+                        ok = r1[0] == 'equal' and r2[0] == 'equal'
+                    ctx.check(ok, 'R-PSI', F.file, F.name, 'psi_2e scan range',
+                              'the end relaxation of series 2 must take the minimum over columns [len2-1-psi_2e, len2-1] of the last row', ev[3].line)
